@@ -264,7 +264,7 @@ def utmi_tx_sessions(sessions):
 
 
 def traces(target, rng, tier):
-    n = 12 if tier == "quick" else 60
+    n = 12 if tier == "quick" else 40
     out = []
     if target.kind == "tx":
         specials = [[0xC3, 0x00, 0xFF, 0xFF, 0x12], [0xD2], [0x4B] + [0xFF] * 7, [0xC3, 0x7E, 0xFC, 0x3F], [0x5A, 0xFF],
@@ -318,7 +318,7 @@ def traces(target, rng, tier):
     if target.kind == "comp":
         names = [nm for nm, _ in target.build()[1]]
         widths = {nm: len(sig) for nm, sig in target.build()[1]}
-        for k in range(6):
+        for k in range(4 if tier == "quick" else 10):
             p = rng.choice([0.25, 0.5, 0.9])
             out.append([{nm: (rng.getrandbits(widths[nm]) if widths[nm] > 1 else int(rng.random() < p)) for nm in names}
                         for _ in range(rng.randint(20, 120))])
